@@ -3,6 +3,7 @@ package tr
 
 import (
 	"bufio"
+	"bytes"
 	"encoding/json"
 	"os"
 )
@@ -31,6 +32,16 @@ func (w *W) Emit(e E) {
 	bs, err := json.Marshal(e)
 	if err != nil {
 		panic(err)
+	}
+	if bytes.Contains(bs, []byte("null")) {
+		// TLC's JSON reader rejects null: every nil slice / map becomes an empty array
+		var v interface{}
+		d := json.NewDecoder(bytes.NewReader(bs))
+		d.UseNumber()
+		if err := d.Decode(&v); err != nil {
+			panic(err)
+		}
+		bs, _ = json.Marshal(denull(v))
 	}
 	w.b.Write(bs)
 	w.b.WriteByte('\n')
@@ -112,4 +123,22 @@ func (s *Set) Close() (events int) {
 		w.Close()
 	}
 	return
+}
+
+func denull(v interface{}) interface{} {
+	switch t := v.(type) {
+	case nil:
+		return []interface{}{}
+	case map[string]interface{}:
+		for k, x := range t {
+			t[k] = denull(x)
+		}
+		return t
+	case []interface{}:
+		for i, x := range t {
+			t[i] = denull(x)
+		}
+		return t
+	}
+	return v
 }
